@@ -11,7 +11,7 @@ class C01(RecorderProp):
     RULE = ('random operations (0-14 intercepted calls, >= 10 calls on one alias in part of the cases, the same alias with '
             'different arguments, instance / static / property sites, class-level operations, alias resolvers, capture '
             'subsets, wrapping data handlers, bodies raising, nested interceptions, values incl. tuples / bytes / nested '
-            'containers / objects) recorded on memory / file / S3 cassettes, each followed by a replay of the SAME program on '
+            'containers / objects / self-referencing lists) recorded on memory / file / S3 cassettes, each followed by a replay of the SAME program on '
             'the same recorder or on a fresh recorder over the same cassette; non-trivial = the recording was saved complete and '
             'holds at least one interception; distinct = distinct canonical case')
     OPTS = dict(ALL_OPTS, faults=False, control=False, data=False, sampling=False, missing_play=False, body_effects=False,
@@ -19,7 +19,8 @@ class C01(RecorderProp):
     N = {'quick': 400, 'thorough': 10000}
 
     def gen_one(self, rng, tier):
-        case = rg.gen_history(rng, self.OPTS)
+        # one case in six carries values that contain themselves / one object twice (copied value by value: in-memory)
+        case = rg.gen_history(rng, dict(self.OPTS, aliasing=True) if rng.random() < 0.17 else self.OPTS)
         runs, created = [], 0
         for run in case['runs']:
             run['enabled'] = True
